@@ -445,14 +445,25 @@ http_run(Params *p)
 	for (int attempt = 0; errpage; attempt++) {
 		if (attempt > 6)
 			VIOL("stuck_after_enomem", "http transaction does not complete after a single allocation failure");
-		UAio u;
-		if (u.aio == NULL)
+		UAio u, u2;
+		if (u.aio == NULL || u2.aio == NULL)
 			continue;
+		// two connects outstanding on one client: the second is dialed when the
+		// first is done, however the first ended (a connect has no business
+		// timing out: the listener is there)
 		nng_aio_set_timeout(u.aio, 500);
+		nng_aio_set_timeout(u2.aio, 500);
 		u.arm("http_connect");
+		u2.arm("http_connect2");
 		nng_http_client_connect(cli, u.aio);
+		nng_http_client_connect(cli, u2.aio);
 		u.wait(0);
-		if (chk(u.result, "nng_http_client_connect", true) != 0)
+		u2.wait(0);
+		int r1 = chk(u.result, "nng_http_client_connect");
+		int r2 = chk(u2.result, "nng_http_client_connect (queued behind another)");
+		if (r2 == 0)
+			nng_http_close((nng_http *) nng_aio_get_output(u2.aio, 0));
+		if (r1 != 0)
 			continue;
 		nng_http   *conn = (nng_http *) nng_aio_get_output(u.aio, 0);
 		std::string l1   = "/nope/" + std::string(230, 'a');
